@@ -329,11 +329,16 @@ def build_compdb(workdir):
     a build tree the flags are synthesised from the (uniform) CMake flags."""
     entries = {}
     src = 'synthesised'
-    bn = REPO + '/_build/build.ninja'
+    # a scratch copy (mutation self-test) borrows the flags of /repo's build tree
+    dbroot = REPO if os.path.exists(REPO + '/_build/build.ninja') else '/repo'
+    bn = dbroot + '/_build/build.ninja'
     if os.path.exists(bn):
         try:
-            out = subprocess.run(['ninja', '-C', REPO + '/_build', '-t', 'compdb'], capture_output=True, text=True, timeout=60)
-            for e in json.loads(out.stdout):
+            out = subprocess.run(['ninja', '-C', dbroot + '/_build', '-t', 'compdb'], capture_output=True, text=True, timeout=60)
+            raw = out.stdout
+            if dbroot != REPO:
+                raw = raw.replace(dbroot + '/', REPO + '/')
+            for e in json.loads(raw):
                 f = e['file']
                 if not f.endswith('.cpp') or f.endswith('_test.cpp') or not f.startswith(MODULES + '/'):
                     continue
@@ -358,6 +363,7 @@ def build_compdb(workdir):
         except Exception:
             entries = {}
     built_modules = set(f[len(MODULES) + 1:].split('/')[0] for f in entries)
+    have_db = bool(entries)
     # units present in the tree but unknown to the DB
     for root, dirs, files in os.walk(MODULES):
         if '/modules/tbox' in root:
@@ -369,9 +375,9 @@ def build_compdb(workdir):
             if p in entries:
                 continue
             mod = p[len(MODULES) + 1:].split('/')[0]
-            if entries and mod not in built_modules:
+            if have_db and mod not in built_modules:
                 continue  # module not part of the build (e.g. missing system library)
-            if not entries and mod in ('dbus', 'mqtt'):
+            if not have_db and mod in ('dbus', 'mqtt'):
                 continue
             if '/examples/' in p or '/example/' in p:
                 continue
